@@ -417,59 +417,72 @@ def check(ctx: Ctx) -> list[RuleResult]:
 
     count_tests = [t for t in cfgu.nodes if t.kind == "test" and isinstance(t.ast, ast.Compare) and len(t.ast.ops) == 1 and isinstance(t.ast.ops[0], (ast.NotEq, ast.Eq)) and "SZ_TOTAL_FRAGS" in norm(_expand5(ups.node, t.ast, pure_only=False)) and "payload_set" in norm(_expand5(ups.node, t.ast, pure_only=False))]
     if not count_tests:
-        raise AnalysisError("_update_payload_set: the fragment-count test was not found")
-
-    def stores_fragment(x) -> bool:
-        a = x.ast
-        if a is None or x.kind != "stmt":
-            return False
-        if isinstance(a, ast.Assign) and isinstance(a.targets[0], ast.Subscript) and norm(a.targets[0].value) == "payload_set" and norm(a.value) == "payload":
-            return True
-        # (re)starting a set with this fragment: a call of the local initialiser with the fragment
-        return any(isinstance(c, ast.Call) and _restarts_with(c) for c in ast.walk(a))
-
-    def _restarts_with(c: ast.Call) -> bool:
-        """a call handing the fragment to a (nested or same-class) initialiser that stores that parameter in a slot of a new list"""
-        pos = [i for i, arg in enumerate(c.args) if norm(arg) == "payload"]
-        if not pos:
-            return False
-        cands = []
-        if isinstance(c.func, ast.Name) and c.func.id in ups.nested:
-            cands.append((ups.nested[c.func.id], 0))
+        # the count comparison sits inside a compound test: what else decides that the set is started afresh? "In any order and with
+        # repeats" - the restart may depend on the fragment *count* only; a restart keyed on which fragment arrived (its number)
+        # throws away the fragments of the same schedule that arrived before it
+        comp = [t for t in cfgu.nodes if t.kind == "test" and isinstance(t.ast, ast.BoolOp) and "SZ_TOTAL_FRAGS" in norm(_expand5(ups.node, t.ast, pure_only=False))]
+        if comp:
+            others = [v for v in comp[0].ast.values if "SZ_TOTAL_FRAGS" not in norm(_expand5(ups.node, v, pure_only=False))]
+            r5.instances += 1
+            r5.nontrivial += 1
+            r5.fail(f"{ups.short}:restart-not-on-count-alone", ups.loc(comp[0].ast), f"the fragment set is (re)started under `{norm(comp[0].ast)[:90]}`: besides the fragment count it depends on `{norm(others[0])[:50] if others else '?'}` - a restart decided by which fragment arrives makes the assembled schedule depend on arrival order (fragments 2,1,3.. of an edited schedule lose fragment 2, and the zone keeps the old schedule)")
+            out.append(r5)
+            count_tests = None  # type: ignore[assignment]
         else:
-            for cs in ctx.cg.calls_in(ups):
-                if cs.node is c:
-                    for callee in cs.callees:
-                        a0 = callee.node.args.args
-                        cands.append((callee, 1 if a0 and a0[0].arg in ("self", "cls") else 0))
-        for callee, off in cands:
-            params = [x.arg for x in callee.node.args.args]
-            for i in pos:
-                if i + off < len(params):
-                    pn = params[i + off]
-                    if any(isinstance(n, ast.Assign) and isinstance(n.targets[0], ast.Subscript) and norm(n.value) == pn for n in own_nodes(callee.node)):
-                        return True
-        return False
+            raise AnalysisError("_update_payload_set: the fragment-count test was not found")
 
-    for t in count_tests:
-        r5.instances += 1
-        r5.nontrivial += 1
-        same = "false" if isinstance(t.ast.ops[0], ast.NotEq) else "true"  # the edge on which the counts agree
-        leaks = []
-        for y, lab in cfgu.succ[t.id]:
-            if lab != same:
-                continue
-            ny = cfgu.nodes[y]
-            if stores_fragment(ny):
-                continue
-            leaks += cfgu.exits_reachable_without(y, stores_fragment, skip_start_exc=False)
-        if leaks:
-            ex, path, _labs = leaks[0]
-            last = [p for p in path if p.ast is not None]
-            r5.fail(f"{ups.short}:fragment-discarded", ups.loc(last[-1].ast if last else None), "a fragment whose count matches the set being built can be dropped without being stored (the old slot content is kept): after the controller's schedule is edited, the old schedule keeps being served", [f"exit via line {last[-1].line if last else '?'}: {norm(last[-1].ast)[:60] if last else ''}"])
-        else:
-            r5.ok({"after": norm(t.ast)[:60], "every_path": "stores the fragment in its slot or restarts the set with it"})
-    out.append(r5)
+    if count_tests is not None:
+        def stores_fragment(x) -> bool:
+            a = x.ast
+            if a is None or x.kind != "stmt":
+                return False
+            if isinstance(a, ast.Assign) and isinstance(a.targets[0], ast.Subscript) and norm(a.targets[0].value) == "payload_set" and norm(a.value) == "payload":
+                return True
+            # (re)starting a set with this fragment: a call of the local initialiser with the fragment
+            return any(isinstance(c, ast.Call) and _restarts_with(c) for c in ast.walk(a))
+
+        def _restarts_with(c: ast.Call) -> bool:
+            """a call handing the fragment to a (nested or same-class) initialiser that stores that parameter in a slot of a new list"""
+            pos = [i for i, arg in enumerate(c.args) if norm(arg) == "payload"]
+            if not pos:
+                return False
+            cands = []
+            if isinstance(c.func, ast.Name) and c.func.id in ups.nested:
+                cands.append((ups.nested[c.func.id], 0))
+            else:
+                for cs in ctx.cg.calls_in(ups):
+                    if cs.node is c:
+                        for callee in cs.callees:
+                            a0 = callee.node.args.args
+                            cands.append((callee, 1 if a0 and a0[0].arg in ("self", "cls") else 0))
+            for callee, off in cands:
+                params = [x.arg for x in callee.node.args.args]
+                for i in pos:
+                    if i + off < len(params):
+                        pn = params[i + off]
+                        if any(isinstance(n, ast.Assign) and isinstance(n.targets[0], ast.Subscript) and norm(n.value) == pn for n in own_nodes(callee.node)):
+                            return True
+            return False
+
+        for t in count_tests:
+            r5.instances += 1
+            r5.nontrivial += 1
+            same = "false" if isinstance(t.ast.ops[0], ast.NotEq) else "true"  # the edge on which the counts agree
+            leaks = []
+            for y, lab in cfgu.succ[t.id]:
+                if lab != same:
+                    continue
+                ny = cfgu.nodes[y]
+                if stores_fragment(ny):
+                    continue
+                leaks += cfgu.exits_reachable_without(y, stores_fragment, skip_start_exc=False)
+            if leaks:
+                ex, path, _labs = leaks[0]
+                last = [p for p in path if p.ast is not None]
+                r5.fail(f"{ups.short}:fragment-discarded", ups.loc(last[-1].ast if last else None), "a fragment whose count matches the set being built can be dropped without being stored (the old slot content is kept): after the controller's schedule is edited, the old schedule keeps being served", [f"exit via line {last[-1].line if last else '?'}: {norm(last[-1].ast)[:60] if last else ''}"])
+            else:
+                r5.ok({"after": norm(t.ast)[:60], "every_path": "stores the fragment in its slot or restarts the set with it"})
+        out.append(r5)
 
     # ---- R6 ---------------------------------------------------------------------------
     # "the same schedule or no schedule - never a different one": a set with a missing fragment must not be handed to the decoder
@@ -577,4 +590,65 @@ def check(ctx: Ctx) -> list[RuleResult]:
     if n8 < 4:
         raise AnalysisError(f"parser_0404: only {n8} reads of the payload found")
     out.append(r8)
+
+    # ---- R9 ---------------------------------------------------------------------------
+    # decoding is total over the records: (i) every 20-byte record of the inflated blob becomes a switchpoint - a record that is
+    # skipped ("padding", "all zeros") is a legal switchpoint for some schedule (hot water, Monday, 00:00, off is 20 zero bytes);
+    # (ii) an overheard fragment is merged whatever the object has cached: the only reasons to pass over a 0404 are the ones the code
+    # has today (not a 0404, the 'no schedule' marker, this zone holds the transfer lock) - a skip decided on cached versions or on
+    # the cached schedule keeps an edited schedule out, so the zone goes on reporting the old one
+    r9 = RuleResult("R9", "no record and no overheard fragment is passed over", "the record loop of fragz_to_full_sched has no skip; Schedule._handle_msg's guards test only the code, the no-schedule marker and the lock owner", min_instances=2)
+    rec_loops = [n for g in dec_scope for n in own_nodes(g.node) if isinstance(n, (ast.For, ast.While)) and any(isinstance(c, ast.Call) and norm(c.func).split(".")[-1] in ("_struct_unpack", "unpack", "unpack_from", "iter_unpack") or (isinstance(c, ast.Call) and isinstance(c.func, ast.Name) and c.func.id in {h.name for h in dec_scope}) for c in ast.walk(n))]
+    if not rec_loops:
+        raise AnalysisError("fragz_to_full_sched: the record loop was not found")
+    for lp in rec_loops:
+        r9.instances += 1
+        r9.nontrivial += 1
+        skips = [x for x in ast.walk(lp) if isinstance(x, (ast.Continue, ast.Break))]
+        if skips:
+            r9.fail(f"{dec.short}:record-skipped", dec.loc(skips[0]), f"the record loop of the schedule decoder can pass over a record (`{norm(skips[0])}` under `{norm(getattr(getattr(skips[0], 'parent', None), 'test', skips[0]))[:50]}`): a record that looks like padding is a legal switchpoint of some schedule, which then does not survive encode -> decode")
+        else:
+            r9.ok({"record_loop": norm(lp)[:60], "skips": 0})
+    hm9 = repo.func(f"{S}.Schedule._handle_msg")
+    from .common import module_scope as _ms9
+
+    ACCEPT = ("msg.code", "SZ_TOTAL_FRAGS", "zone_lock_idx")
+    n_tests = 0
+    for g in [x for x in _ms9(ctx, hm9) if x is hm9 or x.cls is hm9.cls]:
+        if g is not hm9 and not any(isinstance(c, ast.Call) and isinstance(c.func, ast.Attribute) and c.func.attr == g.name for c in own_nodes(hm9.node)):
+            continue
+        if g.name in ("_update_payload_set", "_proc_payload_set"):
+            continue
+        for n in own_nodes(g.node):
+            tests = []
+            if isinstance(n, (ast.If, ast.While)):
+                tests = [n.test]
+            elif isinstance(n, ast.IfExp):
+                tests = [n.test]
+            for t in tests:
+                atoms9: list[ast.expr] = []
+
+                def flat(e: ast.expr) -> None:
+                    if isinstance(e, ast.BoolOp):
+                        for v in e.values:
+                            flat(v)
+                    elif isinstance(e, ast.UnaryOp) and isinstance(e.op, ast.Not):
+                        flat(e.operand)
+                    else:
+                        atoms9.append(e)
+
+                flat(_expand(g.node, t, pure_only=False))
+                for a9 in atoms9:
+                    if isinstance(a9, ast.Call) and isinstance(a9.func, ast.Attribute) and norm(a9.func.value) == "self" and any(h.name == a9.func.attr for h in _ms9(ctx, hm9)):
+                        continue  # a predicate method of the same object: its own tests are examined
+                    n_tests += 1
+                    r9.instances += 1
+                    r9.nontrivial += 1
+                    if any(k in norm(a9) for k in ACCEPT):
+                        r9.ok({"guard": norm(a9)[:60]})
+                    else:
+                        r9.fail(f"{g.short}:fragment-passed-over-on:{norm(a9)[:40]}", g.loc(n), f"Schedule._handle_msg decides on `{norm(a9)[:70]}` whether an overheard 0404 is merged: that is neither the code, the 'no schedule' marker nor the lock owner - a fragment of an edited schedule is dropped on the strength of what is cached, and the zone keeps reporting the schedule it had")
+    if n_tests < 2:
+        raise AnalysisError("Schedule._handle_msg: its guards were not found")
+    out.append(r9)
     return out
